@@ -70,9 +70,19 @@ struct Obs {
     stored: Vec<bool>,
     puts_seen: Vec<usize>,
     actor_died: bool,
+    /// the socket's adaptive request timeout (only genuine replies may move it)
+    request_timeout_us: u64,
 }
 
 impl Obs {
+    /// Equality of everything but the adaptive request timeout (a genuine reply, however late or
+    /// duplicated, may legitimately feed the round-trip estimate).
+    fn same_but_timeout(&self, o: &Obs) -> bool {
+        let mut a = self.clone();
+        a.request_timeout_us = o.request_timeout_us;
+        a == *o
+    }
+
     fn diff(&self, o: &Obs) -> String {
         let mut d = vec![];
         if self.get != o.get {
@@ -99,6 +109,9 @@ impl Obs {
         if self.actor_died != o.actor_died {
             d.push("actor died".into());
         }
+        if self.request_timeout_us != o.request_timeout_us {
+            d.push(format!("request timeout {} us vs {} us", self.request_timeout_us, o.request_timeout_us));
+        }
         d.join("; ")
     }
     fn class(&self, o: &Obs) -> &'static str {
@@ -110,6 +123,8 @@ impl Obs {
             "address-votes"
         } else if self.rt != o.rt || self.srt != o.srt {
             "routing-table"
+        } else if self.request_timeout_us != o.request_timeout_us {
+            "request-timeout"
         } else {
             "stored-or-cached"
         }
@@ -156,6 +171,8 @@ fn injection_bytes(inj: &Inj, target: &Id20) -> Vec<u8> {
             )
         }
         3 => krpc::error(t, 203, "forged"),
+        // a *request* that happens to carry the id of a request we have outstanding
+        5 => krpc::q_ping(t, &evil_id),
         _ => krpc::error(t, 301, "forged"),
     }
 }
@@ -270,8 +287,10 @@ fn scenario(chooser: Chooser, menu: &[Inj], reply_faults: bool, track: bool) -> 
         None => "PENDING".into(),
     };
     let actor_died = w.any_actor_panicked().is_some() || !w.nodes[a].alive;
+    let mut request_timeout_us = 0u64;
     let (rt, srt, pa, fw, cached) = if w.nodes[a].alive {
         let s = w.snapshot(a);
+        request_timeout_us = s.socket.request_timeout.as_micros() as u64;
         let t = |t: &dht::verif::TableSnapshot| {
             let mut v: Vec<(Id20, SocketAddrV4)> = t.buckets.iter().flat_map(|(_, b)| b.iter().map(|n| (*n.id.as_bytes(), n.address))).collect();
             v.sort();
@@ -300,6 +319,7 @@ fn scenario(chooser: Chooser, menu: &[Inj], reply_faults: bool, track: bool) -> 
         stored: net.eps.iter().map(|e| e.imm.contains_key(&v2_target)).collect(),
         puts_seen: net.eps.iter().map(|e| e.puts.len()).collect(),
         actor_died,
+        request_timeout_us,
     };
     let mut tid_dest = vec![];
     for (d, _) in w.sent() {
@@ -354,6 +374,8 @@ fn congruent_menu(lbase: &RunOut, tier: Tier) -> Vec<Inj> {
     let kinds: Vec<u8> = if tier.is_quick() { vec![1, 4] } else { vec![0, 1, 2, 3, 4] };
     let mut cmenu: Vec<Inj> = vec![];
     for (tid, dest) in &lbase.tid_dest {
+        // the addressed peer sends a request of its own carrying exactly the outstanding id
+        cmenu.push(Inj { kind: 5, tid: *tid, src: 4, from: Some(*dest), short: false });
         for &kind in &kinds {
             cmenu.push(Inj { kind, tid: tid.wrapping_add(65536), src: 4, from: Some(*dest), short: false });
             cmenu.push(Inj { kind, tid: *tid, src: 4, from: Some(*dest), short: true });
@@ -443,7 +465,7 @@ fn expired_but_listed(out: &mut Partial) {
     let forged_node = ([0xDDu8; 20], SocketAddrV4::new(Ipv4Addr::new(66, 6, 6, 7), 7777));
     let vote = SocketAddrV4::new(Ipv4Addr::new(6, 6, 6, 6), 6666);
     // endpoints: 0 bootstrap (far), 1 silent, 2 slow (450 ms), 3 silent and known to 2 only
-    let run = |inject: Option<(u64, u8)>| -> (String, Vec<SocketAddrV4>, Option<SocketAddrV4>, bool, Option<(Vec<u8>, SocketAddrV4, u64)>, u64) {
+    let run = |inject: Option<(u64, u8)>| -> (String, Vec<SocketAddrV4>, Option<SocketAddrV4>, bool, Option<(Vec<u8>, SocketAddrV4, u64)>, u64, u64) {
         let mut w = World::new(Chooser::default_run());
         let mut ids = crate::epnet::ranked_ids(&target, 4);
         ids[0][0] ^= 0x80;
@@ -513,18 +535,25 @@ fn expired_but_listed(out: &mut Partial) {
         rt.sort();
         let asked_forged = w.sent().any(|(d, _)| d.from_node == Some(a) && d.to == forged_node.1);
         let done_ms = w.calls[call].done_at.map(|d| (d - t_call) / MS).unwrap_or(0);
-        (res, rt, s.core.public_address, asked_forged, silent_req, done_ms)
+        (res, rt, s.core.public_address, asked_forged, silent_req, done_ms, s.socket.request_timeout.as_micros() as u64)
     };
-    let (base_res, base_rt, base_pa, base_forged, silent_req, done_ms) = run(None);
+    let (base_res, base_rt, base_pa, base_forged, silent_req, done_ms, base_timeout) = run(None);
     out.add("executions", 1);
     out.witness("the lookup outlived the first silent request's timeout", silent_req.is_some() && done_ms > 700 && !base_forged);
     out.gauge_max("expired_window_lookup_ms", done_ms);
     let mut at = 520u64;
     while at + 60 < done_ms {
         for src in 0..2u8 {
-            let (res, rt, pa, asked_forged, _, _) = run(Some((at, src)));
+            let (res, rt, pa, asked_forged, _, _, timeout) = run(Some((at, src)));
             out.add("executions", 1);
             out.add("expired_but_listed_injections", 1);
+            if timeout != base_timeout && res == base_res && rt == base_rt && pa == base_pa && !asked_forged {
+                out.violation(
+                    format!("injection-has-effect/expired-but-listed/request-timeout/{}", if src == 0 { "wrong-ip" } else { "wrong-port" }),
+                    format!("a reply from a wrong address carrying the id of a request sent {at} ms ago was rejected, yet it moved the socket's request timeout from {base_timeout} us to {timeout} us"),
+                    json!({"part": "expired-listed"}),
+                );
+            }
             if res != base_res || rt != base_rt || pa != base_pa || asked_forged {
                 out.violation(
                     format!("injection-has-effect/expired-but-listed/{}", if src == 0 { "wrong-ip" } else { "wrong-port" }),
@@ -687,7 +716,7 @@ fn run(tier: Tier, shard: usize, nshards: usize, _seed: u64) -> Partial {
                         out.add("executions", 1);
                         out.add("duplicates_at_the_wrap", 1);
                         out.add("transitions", r.steps);
-                        if r.obs != base.obs {
+                        if !r.obs.same_but_timeout(&base.obs) {
                             out.violation(
                                 format!("duplicate-reply-has-effect/{}/32-bit-wrap", base.obs.class(&r.obs)),
                                 format!("transaction-id counter started at u32::MAX - {back}; genuine reply #{pos} delivered twice: {}", base.obs.diff(&r.obs)),
@@ -722,7 +751,7 @@ fn run(tier: Tier, shard: usize, nshards: usize, _seed: u64) -> Partial {
                 if r.obs != lbase.obs {
                     let choices = ch.choices();
                     let inj = choices.iter().find(|c| **c > 0).map(|c| cmenu[*c as usize - 1].clone());
-                    let how = inj.as_ref().map(|i| if i.short { "two-low-bytes" } else { "plus-multiple-of-65536" }).unwrap_or("?");
+                    let how = inj.as_ref().map(|i| if i.kind == 5 { "request-with-the-same-id" } else if i.short { "two-low-bytes" } else { "plus-multiple-of-65536" }).unwrap_or("?");
                     out.violation(
                         format!("injection-has-effect/{}/congruent-id-from-the-addressed-peer/{how}", lbase.obs.class(&r.obs)),
                         format!("node whose transaction ids are above 65536 (counter started at {start_tid}); the addressed peer sends {:?} before its genuine reply: {}", inj, lbase.obs.diff(&r.obs)),
@@ -769,7 +798,7 @@ fn run(tier: Tier, shard: usize, nshards: usize, _seed: u64) -> Partial {
                     let (_, reference) = scenario(Chooser::new(twin.clone()), &[], true, false);
                     out.add("executions", 1);
                     out.add("pairs_tried", 1);
-                    if r.obs != reference.obs {
+                    if !r.obs.same_but_timeout(&reference.obs) {
                         let kinds: Vec<&str> = devs.iter().map(|i| ["", "dup", "late", "lost", "late-dup", "intime+late", "slow450"][choices[*i] as usize]).collect();
                         out.violation(
                             format!("reply-fault-pair-has-effect/{}/{}", reference.obs.class(&r.obs), kinds.join("+")),
@@ -781,7 +810,7 @@ fn run(tier: Tier, shard: usize, nshards: usize, _seed: u64) -> Partial {
             } else if let Some(pos) = choices.iter().position(|c| *c > 0) {
                 match choices[pos] {
                     1 => {
-                        if r.obs != base.obs {
+                        if !r.obs.same_but_timeout(&base.obs) {
                             out.violation(
                                 format!("duplicate-reply-has-effect/{}", base.obs.class(&r.obs)),
                                 format!("genuine reply #{pos} duplicated: {}", base.obs.diff(&r.obs)),
@@ -792,7 +821,7 @@ fn run(tier: Tier, shard: usize, nshards: usize, _seed: u64) -> Partial {
                     }
                     5 => {
                         // one copy in time, a second copy after expiry: same as no duplication
-                        if r.obs != base.obs {
+                        if !r.obs.same_but_timeout(&base.obs) {
                             out.violation(
                                 format!("late-duplicate-has-effect/{}", base.obs.class(&r.obs)),
                                 format!("genuine reply #{pos} delivered once in time and once 900 ms later: {}", base.obs.diff(&r.obs)),
@@ -807,7 +836,7 @@ fn run(tier: Tier, shard: usize, nshards: usize, _seed: u64) -> Partial {
                         twin[pos] = 3;
                         let (_, lost) = scenario(Chooser::new(twin), &[], true, false);
                         out.add("executions", 1);
-                        if r.obs != lost.obs {
+                        if !r.obs.same_but_timeout(&lost.obs) {
                             out.violation(
                                 format!("expired-reply-has-effect/{}", lost.obs.class(&r.obs)),
                                 format!("genuine reply #{pos} delivered 900 ms late (after its request expired) vs lost: {}", lost.obs.diff(&r.obs)),
@@ -871,7 +900,7 @@ fn replay(v: &Value) -> Result<Option<Violation>, String> {
             START_TID.with(|c| c.set(Some(u32::MAX - back)));
             let (_, r) = scenario(Chooser::new(choices.clone()), &[], true, false);
             START_TID.with(|c| c.set(None));
-            if r.obs != base.obs {
+            if !r.obs.same_but_timeout(&base.obs) {
                 out.violation("duplicate-reply-has-effect/32-bit-wrap", base.obs.diff(&r.obs), v.clone());
             }
         }
@@ -899,7 +928,7 @@ fn replay(v: &Value) -> Result<Option<Violation>, String> {
             } else {
                 base.obs.clone()
             };
-            if r.obs != reference {
+            if !r.obs.same_but_timeout(&reference) {
                 out.violation("reply-fault-has-effect", reference.diff(&r.obs), v.clone());
             }
         }
